@@ -1,13 +1,14 @@
 import TsVerif.Common.IO
-import TsVerif.Gen.Basic
-import TsVerif.Gen.Edit
-import TsVerif.Gen.Consts
-import TsVerif.Gen.Query
+import TsVerif.GenRaw.Basic
+import TsVerif.GenRaw.Edit
+import TsVerif.GenRaw.Consts
+import TsVerif.GenRaw.Query
 /-!
-`tsv-gen`: evaluates the *generated* definitions on the same argument lines as `tsv-cunit`
+`tsv-gen`: evaluates the *regenerated raw* definitions (TsGenRaw) on the same argument lines as `tsv-cunit`
 evaluates the C functions (translator validation).
 -/
-open TsGen TsVerif
+open TsGenRaw TsVerif
+open TsGen (TSPoint TSRange TSInputEdit Length TSQuantifier)
 
 def P (a : Array Nat) (i : Nat) : TSPoint := { row := a[i]!, column := a[i+1]! }
 def L (a : Array Nat) (i : Nat) : Length := { bytes := a[i]!, extent := P a (i+1) }
